@@ -309,13 +309,20 @@ def rule_permexh(ctx):
                 continue
             key = m.key
             comps = [z for z in key.a if z.op != "slice"] if key.op == "tuple" else [key]
+            def loop_index(z):
+                return z.op in ("iter", "idx", "loopvar") or (z.op == "sub" and z.a[0].op == "iter" and z.a[1].op == "const")
+
+            est_ix = {z.a[1] for d in D for z in tm.walk(d.a[1][1]) if z.op == "sub" and z.a[0].op in ("param", "ite", "call") and "estimated_sources" in tm.params_of(z.a[0]) and loop_index(z.a[1])}
+            true_ix = {d.a[1][2] for d in D}
             if len(comps) == 1:
-                comps = [comps[0], comps[0]]  # the diagonal: estimate j against true source j
+                K = comps[0]
+                if est_ix == {K} and true_ix == {K}:
+                    comps = [K, K]  # the diagonal: estimate j against true source j
+                else:
+                    comps = [tm.sub(K, tm.const(0)), tm.sub(K, tm.const(1))]  # one index pair (i, j) used as the key
             if len(comps) != 2:
                 continue
             n_or += 1
-            est_ix = {z.a[1] for d in D for z in tm.walk(d.a[1][1]) if z.op == "sub" and z.a[0].op in ("param", "ite", "call") and "estimated_sources" in tm.params_of(z.a[0]) and z.a[1].op in ("iter", "idx", "loopvar")}
-            true_ix = {d.a[1][2] for d in D}
             good_o = est_ix == {comps[0]} and true_ix == {comps[1]}
             yield ob(R, f, "%s:orientation@%d" % (q, n_or), good_o, "score entry [%s, %s] holds estimate %s against true source %s" % (tm.show(comps[0], 1), tm.show(comps[1], 1), "/".join(tm.show(z, 1) for z in est_ix) or "?", "/".join(tm.show(z, 1) for z in true_ix) or "?"), node=m.node)
         need(n_or >= 2, R, "%s: stores of the decomposition criteria into the score matrices not found" % q)
